@@ -15,11 +15,8 @@ func fnWatch(ctx *cmdContext, args map[string]any) (output respValue, err error)
 
 	ids := ctx.dsc.getIds(keyStrs...)
 	for idx, id := range ids {
-		wk := watchKey{ds: ctx.dsc.ds, key: keyStrs[idx]}
-		if _, watched := ctx.cs.watches[wk]; !watched {
-			// a key that is watched already keeps the version seen first
-			ctx.cs.watches[wk] = id
-		}
+		// a key that is watched already keeps the version seen first
+		ctx.cs.watchOnce(watchKey{ds: ctx.dsc.ds, key: keyStrs[idx]}, id)
 	}
 
 	output.data = rstrOK
@@ -28,7 +25,7 @@ func fnWatch(ctx *cmdContext, args map[string]any) (output respValue, err error)
 
 func fnUnwatch(ctx *cmdContext, args map[string]any) (output respValue, err error) {
 	// clear out watch map
-	ctx.cs.watches = map[watchKey]uint64{}
+	ctx.cs.clearWatches()
 	output.data = rstrOK
 	return
 }
@@ -40,7 +37,7 @@ func fnDiscard(ctx *cmdContext, args map[string]any) (output respValue, err erro
 	}
 
 	// clear out watch map and discard multi command queue
-	ctx.cs.watches = map[watchKey]uint64{}
+	ctx.cs.clearWatches()
 	ctx.cs.cmdQueue = nil
 	ctx.cs.cmdQueueFailed = false
 	output.data = rstrOK
@@ -65,7 +62,7 @@ func fnExec(ctx *cmdContext, args map[string]any) (output respValue, err error) 
 
 	if ctx.cs.cmdQueueFailed {
 		// a command was rejected while queueing: execute nothing
-		ctx.cs.watches = map[watchKey]uint64{}
+		ctx.cs.clearWatches()
 		ctx.cs.cmdQueue = nil
 		ctx.cs.cmdQueueFailed = false
 		output.data = respErrorString("EXECABORT Transaction discarded because of previous errors.")
@@ -83,7 +80,7 @@ func fnExec(ctx *cmdContext, args map[string]any) (output respValue, err error) 
 	// check the watches; if anything has changed, return null
 	if isAbortedExecUnlocked(ctx.cs) {
 		// an aborted EXEC also ends the transaction
-		ctx.cs.watches = map[watchKey]uint64{}
+		ctx.cs.clearWatches()
 		ctx.cs.cmdQueue = nil
 		return
 	}
@@ -98,7 +95,7 @@ func fnExec(ctx *cmdContext, args map[string]any) (output respValue, err error) 
 	}
 
 	// reset multi state and return the results
-	ctx.cs.watches = map[watchKey]uint64{}
+	ctx.cs.clearWatches()
 	ctx.cs.cmdQueue = nil
 	output.data = nativeArrayToResp(results)
 	return
